@@ -88,6 +88,18 @@ pub fn check(id: &str, tier: Tier) -> i32 {
   }
   explore(&run, &spec, &mem, &all_starts, id);
   let mut passes = vec![json!({"cells": mem.len(), "starts": all_starts.len(), "alphabet": alphabet.len(), "depth": depth, "wall_s": t0.elapsed().as_secs_f64()})];
+  if id == "C03" {
+    // "for all n": requests whose padded size comes within a few bytes of u32::MAX (where a sum narrowed back to
+    // u32 wraps around), from fresh space and from recycled segments: Ok only with the capacity asked for
+    use Op::*;
+    use Sz::*;
+    let m = u32::MAX;
+    let huge = vec![B(N(16)), B(R), T(U64), D(0), D(1), AB(U64, N(m)), AB(U64, N(m - 7)), AB(U64, N(m - 8)), AB(U64, N(m - 14)), AB(U64, N(m - 15)), AB(U64, N(m - 16)), AB(A16, N(m - 32)), AB(A16, N(m - 47)), AB(U8, N(m)), AB(U16, N(m - 2)), ABO(U64, N(m - 9)), B(N(m)), BO(N(m - 1)), B(Wrap(0)), B(Wrap(1)), AB(U64, Wrap(0)), AB(U64, Wrap(-8)), AB(U64, Wrap(-15)), AB(U64, N(1 << 31)), AB(A16, N((1 << 31) - 16))];
+    let spec_h = Spec { alphabet: huge.clone(), depth: 3, ..spec.clone() };
+    let th = std::time::Instant::now();
+    explore(&run, &spec_h, &mem, &all_starts, id);
+    passes.push(json!({"cells": mem.len(), "starts": all_starts.len(), "alphabet": huge.iter().map(|o| o.short()).collect::<Vec<_>>(), "depth": 3, "kind": "huge requests", "wall_s": th.elapsed().as_secs_f64()}));
+  }
   // pass 2: file-backed cells at depth 3 (an open + close per history)
   let t1 = std::time::Instant::now();
   let files = cells(&[(Backend::File, true), (Backend::File, false)], cap_unify, cap_unify);
